@@ -143,7 +143,7 @@ def process(ctx: Ctx, cases: list[dict]) -> None:
                 for inc in c.get("files", []):
                     p = td / inc
                     p.parent.mkdir(parents=True, exist_ok=True)
-                    p.write_text("zz_included 1;\n")
+                    p.write_text("// comment inside the include\nzz_included 1; /* block inside the include */\nzz_sub { // nested include comment\n q 2; }\n")
                 src = td / "src"
                 src.write_text(text)
                 reset_globals()
